@@ -11,6 +11,7 @@ import QV.Driver.Tsig
 import QV.Driver.Writer
 import QV.Driver.Server
 import QV.Driver.SrvSafe
+import QV.Driver.SrvRrl
 import QV.Driver.ServerTsig
 import QV.Driver.ServerAnswer
 import QV.Driver.Zonefile
@@ -23,7 +24,7 @@ import QV.Driver.Snapshot
 namespace QV.Driver
 
 def handlers : List Handler :=
-  [wireHandler, codesHandler, nameHandler, rdataHandler, catalogHandler, zoneHandler, rrlHandler, readerHandler, tsigHandler, writerHandler, serverHandler, srvHandler, srvsafeHandler, srvtHandler, serverAnswerHandler, zonefileHandler, includeHandler, poolHandler, framingHandler, reloadHandler, snapshotHandler]
+  [wireHandler, codesHandler, nameHandler, rdataHandler, catalogHandler, zoneHandler, rrlHandler, readerHandler, tsigHandler, writerHandler, serverHandler, srvHandler, srvsafeHandler, srvrrlHandler, srvtHandler, serverAnswerHandler, zonefileHandler, includeHandler, poolHandler, framingHandler, reloadHandler, snapshotHandler]
 
 def dispatch (line : String) : String :=
   match line.trimAscii.toString.splitOn " " with
